@@ -36,6 +36,7 @@ def plan(tier, seed):
         from . import pageloop
         js += pageloop.jobs("C03", tier, seed)
         js += pageloop.page_jobs("C03", tier)
+        js += pageloop.v2_jobs("C03", tier)
     except ImportError:
         pass
     extra = dict(
